@@ -269,6 +269,47 @@ def envelope_check(c, out, tol=1e-6):
     return bad
 
 
+def nan_step_equivalence(ctx):
+    """steps whose target is NaN / infinite impose nothing: a path goal whose target series is NaN or -inf / +inf
+    at some steps is the same problem as point goals at the remaining steps (same objective values, same
+    trajectory of the goal function)"""
+    import random
+    r2 = random.Random(404)
+    for i in range(ctx.n(6, 60)):
+        n = 3 if i < 3 else r2.choice([3, 4])
+        fn = ["y", "z", "y"][i % 3]
+        lo, hi = gp.FRANGE[fn]
+        act = [k for k in range(n) if r2.random() < 0.5] or [1]
+        if len(act) == n:
+            act = act[:-1]
+        blank = ["nan", "-inf", "nan"][i % 3]
+        t = float(r2.choice([5, 6, 8]))
+        tmin = [str(t) if k in act else blank for k in range(n)]
+        # a second goal of the same priority keeps the function low where the first one has no target
+        other = {"path": True, "fn": fn, "prio": 1, "order": 2, "weight": 1, "nominal": 1,
+                 "tmax": [str(-3.0) if k not in act else "nan" for k in range(n)]}
+        later = {"path": True, "fn": fn, "prio": 2, "order": 1, "weight": 1, "nominal": 1}
+        a = {"k": "run", "times": list(range(n)), "E": 1, "p": [0], "variant": "multi", "options": {},
+             "goals": [{"path": True, "fn": fn, "prio": 1, "order": 2, "weight": 1, "nominal": 1, "tmin": tmin}, other, later]}
+        b = json.loads(json.dumps(a))
+        b["goals"] = [{"path": False, "fn": fn, "prio": 1, "k": k, "order": 2, "weight": 1, "nominal": 1, "tmin": t} for k in act] + [other, later]
+        outs = [c02.run_case(c) for c in (a, b)]
+        ctx.count("nan_step_pairs")
+        ctx.case_done(core.fingerprint(["nan-steps", n, fn, act, blank]), True)
+        if any("error" in o or not o.get("ok") for o in outs):
+            ctx.count("nan_step_pair_unsolved")
+            continue
+        fa = [[float(v) for v in s_["results"][0][fn]] for s_ in outs[0]["snaps"]]
+        fb = [[float(v) for v in s_["results"][0][fn]] for s_ in outs[1]["snaps"]]
+        oa = [float(s_["objective_value"]) for s_ in outs[0]["snaps"]]
+        ob = [float(s_["objective_value"]) for s_ in outs[1]["snaps"]]
+        if any(abs(x - y) > 1e-5 * (1 + abs(y)) for x, y in zip(oa, ob)) or \
+                any(abs(x - y) > 1e-4 * (1 + abs(y)) for ra, rb in zip(fa, fb) for x, y in zip(ra, rb)):
+            ctx.violation("envelope/inactive-step-imposes", {"case": a, "point_goal_case": b, "objectives": [oa, ob], fn: [fa, fb]},
+                          what="a path goal with %s at steps %s differs from point goals at the other steps: objective values %s vs %s, %s %s vs %s" % (
+                              blank, [k for k in range(n) if k not in act], oa, ob, fn, fa[-1], fb[-1]))
+
+
 def conflict_probe(ctx):
     """a critical goal that contradicts what an earlier priority retained must make optimize() fail
     (or be met); it must not be clipped silently"""
@@ -466,6 +507,7 @@ def run(ctx):
         cases += core.corpus_cases(ID)
         for _ in range(ctx.n(500, 20000)):
             cases.append(gen_vcase(ctx.rng))
+        cases += [c for c in c02.fixed_runs() if not c.get("expect_failure")]
         for _ in range(ctx.n(14, 500)):
             cases.append(c02.gen_run(ctx.rng))
         for _ in range(ctx.n(6, 150)):
@@ -503,10 +545,16 @@ def run(ctx):
                                         [[g["prio"], g["fn"], g["path"], g.get("critical", False), g.get("tmin"), g.get("tmax")] for g in c["goals"]]]), special)
         ctx.count("run_" + c["variant"])
         bad = envelope_check(c, out)
+        if c["variant"] == "multi":
+            # ... and in every later solution the function stays inside the envelope of the violation reported
+            # at the goal's own priority (the violation variable is gone by then)
+            bad += [b for b in c02.attainment_check(c, out) if "violation_later" in b]
         if bad:
             sig = "critical/not-met" if "critical_goal" in bad[0] else "envelope/left"
             ctx.violation(sig, {"case": c, "violations": bad[:5]},
                           what="a solution leaves the epsilon envelope / misses a critical goal: %s" % json.dumps(bad[0], default=str)[:300])
+    if not replay:
+        nan_step_equivalence(ctx)
     rj = [c for c in cases if c.get("k") == "reject"] if replay else reject_cases()
     for c in rj:
         check_reject(ctx, c)
